@@ -205,7 +205,9 @@ fn process_dir(
                     *quit = true;
                     break;
                 }
-                if matcher_io.should_skip_current_dir() {
+                // -prune has no effect in depth-first order: the directory's
+                // contents have already been visited by the time it is evaluated.
+                if matcher_io.should_skip_current_dir() && !config.depth_first {
                     it.skip_current_dir();
                 }
             }
